@@ -457,6 +457,10 @@ impl RefChunkEncoder {
         self.per.contains_key(&csid)
     }
 
+    pub fn used_csids(&self) -> Vec<u32> {
+        self.per.keys().copied().collect()
+    }
+
     pub fn had_ext(&self, csid: u32) -> bool {
         self.per.get(&csid).map(|p| p.had_ext).unwrap_or(false)
     }
